@@ -5,12 +5,19 @@ props = [json.loads(l) for l in open('/verif/properties.jsonl')]
 hook_commit = subprocess.run(['git','-C','/repo','log','--format=%H','--grep=^verif:'],capture_output=True,text=True).stdout.split()
 
 E1 = "E1 closed-world explicit-state explorer over real dbft.DBFT instances (hand-written, deviation-bounded DFS with state caching)"
+E1T = "explicit-state model checking of the real implementation: deviation-bounded (k) exhaustive exploration of delivery/timer/Byzantine schedules with state deduplication, monitor evaluated in every state"
+E1N = "Trusted: harness payload/block/signature types (unforgeable by construction), 64-bit content hashes, reflective whole-struct state fingerprint, virtual timer; bounds N<=7, views<=2-3, heights<=2-3, k<=2 (quick) / 3 (thorough); a run cut by its time budget reports exhaustive=false with the bound completed."
+def e1(text, design): return dict(level="model_checking", engine="E1", technique=E1T, text=text, note=E1N, design=design)
 claimed = {
- "C01": dict(level="model_checking", engine="E1",
-   technique="explicit-state model checking of the real implementation: deviation-bounded (k) exhaustive exploration of delivery/timer/Byzantine schedules with state deduplication",
-   text="Every execution with <=k deviations from the default schedule, around each base scenario (fault-free, silent primary, one Byzantine member at every position, amnesia restart, N=1..7, anti-MEV off/on/switch), is explored on real library instances and agreement is evaluated in every state. Bounded exhaustive coverage is the right level: agreement is a safety property over all schedules and fault sequences, which no sampled test can settle.",
-   note="Trusted: harness payload/block/signature types (unforgeable by construction), 64-bit content hashes, reflective state fingerprint; bounds N<=7, views<=2-3, heights<=2, k<=2 (quick) / 3 (thorough).",
-   design="4 C01"),
+ "C01": e1("Every execution with <=k deviations from the default schedule, around each base scenario (fault-free, silent primary, one Byzantine member at every position with equivocation/garbage/replay menu, amnesia restart, N=1..7, anti-MEV off/on/switch), is explored on real library instances and agreement is evaluated in every state. Bounded exhaustive coverage is the right level: agreement is a safety property over all schedules and fault sequences, which no sampled test can settle.", "4 C01"),
+ "C02": e1("At every ProcessBlock/ProcessPreBlock callback reached in the explored space the oracle itself re-verifies the held (pre)commits against the block and compares the block with the ledger tip and the primary's proposal. Early, other-view, duplicated and invalid (pre)commits are menu items of the Byzantine member, so the orders that matter are enumerated, not sampled.", "4 C02"),
+ "C03": e1("The complete Broadcast history of every honest node in every explored execution is checked for equivocation, commit lock and view monotonicity; ChangeView floods, recovery traffic, duplicates and repeated timeouts are in the event alphabet.", "4 C03"),
+ "C04": e1("Every broadcast and every view increase in the explored space is checked against the node's exported Context at that instant (proposal origin, transactions, verification verdict, M preparations naming the proposal, M change views for the entered view from the monitor's own record).", "4 C04"),
+ "C07": e1("Per-node callback order (PreCommit, ProcessPreBlock, Commit, NewBlockFromContext/Sign, ProcessBlock) is checked in every explored execution with anti-MEV on, switching on at the second height, and off, including failing ProcessPreBlock and Byzantine pre-commits.", "4 C07"),
+ "C10": e1("After every API call of every explored execution the virtual timer of each undecided validator is compared with the node's (height, view); nested view changes during cached-payload replay are reached through the silent-primary bases and replay-order deviations.", "4 C10"),
+ "C06": dict(level="exploration", engine="E3", technique="exhaustive enumeration of the finite argument domain on the real Context (small-scope model checking of a pure function)", text="F, M, GetPrimaryIndex are pure functions of (N, height, view); the whole domain N=1..65535 x 256 views x boundary heights is enumerated (thorough) and compared with independent big-integer arithmetic, so the claim is exhaustive for the stated domain rather than sampled.", note="Trusted: the independent arithmetic in the checker; for N above the Start threshold the Context is populated through exported fields (the functions read nothing else).", design="4 C06"),
+ "C15": dict(level="exploration", engine="E3", technique="exhaustive enumeration of a finite input grid, each point one real Start/OnReceive/Reset/OnTimeout drive of the implementation", text="The full cross product of increments, previous timestamps, clock readings, pool lists, heights, views, N, anti-MEV and dynamic-block-time settings is driven through the real primary code path and every broadcast proposal is compared with the constructor arguments, the Context and the primary's own block.", note="Trusted: harness application (pool, virtual clock); reading of 'whenever that is larger' documented in evidence assumptions.", design="4 C15"),
+ "C18": dict(level="exploration", engine="E5", technique="exhaustive enumeration of all operation sequences up to a length bound against the real timer under a fake runtime clock (testing/synctest), step-by-step comparison with a reference model", text="All Reset/Extend/Sleep/Poll sequences up to length 7 (quick) / 8 (thorough) are executed on the real timer.Timer in synctest bubbles where every instant is exact; a 30-line reference model decides when a value must / must not be receivable.", note="Trusted: go1.26.8 testing/synctest fake clock; reference model in e5/timermc.", design="4 C18"),
 }
 todo_reason = "check not implemented yet in this revision (see DESIGN.md section 4 for the planned engine)"
 checks=[]; na=[]
@@ -39,6 +46,8 @@ m = {
            "source_commits": hook_commit, "add_only": True},
  "engines": [
    {"name":"E1","path":"/verif/mc","serves_properties":[c for c in claimed if claimed[c]['engine']=="E1"],"kind_free_text":E1},
+   {"name":"E3","path":"/verif/mc/checks_e3.go","serves_properties":[c for c in claimed if claimed[c]['engine']=="E3"],"kind_free_text":"finite-domain enumerators driving the real library"},
+   {"name":"E5","path":"/verif/e5","serves_properties":[c for c in claimed if claimed[c]['engine']=="E5"],"kind_free_text":"go1.26.8 testing/synctest drivers (fake runtime clock) for the real timer and the real simulation"},
  ],
  "checks": checks,
  "notes": "All checks rebuild /verif/bin/verifmc from /repo's working tree on every invocation (./build.sh). Known findings: /verif/known_findings.json.",
